@@ -589,22 +589,7 @@ def explore_span_class(model, cls, facts, core_table, max_paths=500):
     facts.paths[cls.short] = n
 
 
-def build_facts(model, configs):
-    """Facts for every class that can be in a token list of any configuration, plus the classes
-    they construct."""
-    facts = Facts()
-    core_table = core_match_attr_table(model)
-    blocks, spans = [], []
-    for cfg in configs:
-        for c in cfg.block_types:
-            if c not in blocks:
-                blocks.append(c)
-        for c in cfg.span_types:
-            if c not in spans:
-                spans.append(c)
-    for c in blocks:
-        explore_block_class(model, c, facts, nlines=3 if c.name == 'Table' else 2)
-    # Document
+def _doc_facts(model, facts):
     doc = model.cls('block_token.Document')
 
     def run_doc(oracle):
@@ -620,13 +605,76 @@ def build_facts(model, configs):
         return out
     for trace, out in enumerate_paths(run_doc, 200):
         collect(model, doc, out, trace, facts)
-    tokbase = model.cls('token.Token')
+
+
+_TASK_STATE = {}
+
+
+def _run_task(i):
+    """Worker (forked): explore one class, return its facts in picklable form."""
+    model, tasks, core_table = _TASK_STATE['model'], _TASK_STATE['tasks'], _TASK_STATE['core']
+    kind, cls = tasks[i]
+    f = Facts()
+    if kind == 'block':
+        explore_block_class(model, cls, f, nlines=3 if cls.name == 'Table' else 2)
+    elif kind == 'span':
+        explore_span_class(model, cls, f, core_table)
+    else:
+        _doc_facts(model, f)
+    errs = [(c.qualname, st, r.exc.kind, tuple(str(a)[:80] for a in r.exc.args)) for c, st, r, tr in f.errors]
+    for insts in f.instances.values():
+        for inst in insts:
+            inst.trace = None
+    return (f.instances, errs, f.notes, f.paths)
+
+
+def build_facts(model, configs, jobs=None):
+    """Facts for every class that can be in a token list of any configuration, plus the classes
+    they construct. Classes are explored in forked worker processes when possible."""
+    import os
+    facts = Facts()
+    core_table = core_match_attr_table(model)
+    blocks, spans = [], []
+    for cfg in configs:
+        for c in cfg.block_types:
+            if c not in blocks:
+                blocks.append(c)
+        for c in cfg.span_types:
+            if c not in spans:
+                spans.append(c)
+    tasks = [('block', c) for c in blocks] + [('doc', None)]
     for c in spans:
         if c.name == 'CoreTokens':
             for n in ('Strong', 'Emphasis', 'Link', 'Image'):
                 k = model.classes.get(c.modname + '.' + n)
                 if k is not None:
-                    explore_span_class(model, k, facts, core_table)
+                    tasks.append(('span', k))
             continue
-        explore_span_class(model, c, facts, core_table)
+        tasks.append(('span', c))
+    # summaries are computed once, before forking
+    for short in SUMMARISED:
+        if model.has_func(short):
+            function_summary(model, short)
+    _TASK_STATE.update(model=model, tasks=tasks, core=core_table)
+    jobs = jobs or min(16, os.cpu_count() or 1)
+    results = None
+    if jobs > 1 and os.environ.get('VERIF_NO_FORK') != '1':
+        try:
+            import multiprocessing
+            ctx = multiprocessing.get_context('fork')
+            with ctx.Pool(min(jobs, len(tasks))) as pool:
+                results = pool.map(_run_task, range(len(tasks)), chunksize=1)
+        except Exception as e:   # fall back to in-process exploration
+            facts.notes.append('parallel exploration unavailable (%s); ran sequentially' % type(e).__name__)
+            results = None
+    if results is None:
+        results = [_run_task(i) for i in range(len(tasks))]
+    for instances, errs, notes, paths in results:
+        for cls, insts in instances.items():
+            for inst in insts:
+                facts.add(cls, inst)
+        for q, st, kind, args in errs:
+            facts.errors.append((model.classes[q], st, Raised(__import__('sa.interp', fromlist=['ExcVal']).ExcVal(kind, args)), None))
+        facts.notes.extend(notes)
+        facts.paths.update(paths)
     return facts
